@@ -1,11 +1,13 @@
 /-
-Line-protocol driver for the C14 models (environmental selection).  One op per
-input line, one observation line per op; same protocol as harness/c14.cpp and
-harness/c14_opt.cpp.
+Line-protocol driver for the C14 models (environmental selection, indicators, evaluator,
+population updates).  One op per input line, one observation line per op; same protocol as
+harness/c14.cpp, harness/c14_gen.cpp and harness/c14_opt.cpp.
 -/
 import SharkVerif.Model.Pareto
 import SharkVerif.Model.MOO
-open SharkVerif.Pareto SharkVerif.MOO
+import SharkVerif.Model.MOOInd
+import SharkVerif.Model.MOOStep
+open SharkVerif.Pareto SharkVerif.MOO SharkVerif.HV
 
 def showL {α} [ToString α] (l : List α) : String :=
   "[" ++ ",".intercalate (l.map toString) ++ "]"
@@ -14,21 +16,126 @@ def chunk (m : Nat) : Nat → List Int → List Pt
   | 0, _ => []
   | n + 1, l => l.take m :: chunk m n (l.drop m)
 
+/-- IEEE double instance of the crowding-distance arithmetic -/
+def floatNum : CrowdNum Float where
+  ofInt i := Float.ofInt i
+  zero := 0.0
+  keep := 1.7976931348623157e308
+  add := (· + ·)
+  sub := (· - ·)
+  div := (· / ·)
+  lt a b := a < b
+  eq a b := a == b
+
+/-- the reference point used by harness/c14.cpp for `hv`: one above the largest value -/
+def refAbove (m : Nat) (S : List Pt) : Pt :=
+  (List.range m).map fun d => S.foldl (fun acc p => max acc (p.getD d 0 + 1)) (-1000000000)
+
+/-- the indicator named in the op; `none`: not modelled exactly (count only) -/
+def indicatorOf (name : String) (m : Nat) (r : Pt) : Option (List Pt → Indicator) :=
+  if name == "hv" then some (mkIndicator (hvLeastRef r))
+  else if name == "hvnoref" && m == 2 then some (mkIndicator hvLeastNoRef2d)
+  else if name == "crowd" then some (mkIndicator (crowdLeast floatNum))
+  else if name == "eps" then some (mkIndicator epsLeast)
+  else none
+
+def showInd (p : Indiv) : String :=
+  ",".intercalate (p.x.map toString) ++ ":" ++ ",".intercalate (p.pen.map toString) ++ ":" ++
+    ",".intercalate (p.unpen.map toString) ++ ":" ++ toString p.rank ++ ":" ++ (if p.sel then "1" else "0")
+
+def showPop (l : List Indiv) : String := ";".intercalate (l.map showInd)
+
+/-- lattice points with `n` coordinates summing to `t`, in the order of `pointLattice_helper` -/
+def lattice : Nat → Nat → List (List Nat)
+  | 0, _ => [[]]
+  | 1, t => [[t]]
+  | n + 2, t => (List.range (t + 1)).flatMap fun i => (lattice (n + 1) (t - i)).map (i :: ·)
+
+/-- `computeOptimalLatticeTicks` -/
+def latticeTicks (n target : Nat) : Nat :=
+  if n == 1 then target else if n == 2 then target - 1 else
+  ((List.range (target + 1)).find? fun t => (lattice n t).length ≥ target).getD target
+
+/-- parse `c` individuals `x(d) pen(m) unpen(m)` -/
+def parseOff (d m : Nat) : Nat → List Int → List Indiv × List Int
+  | 0, l => ([], l)
+  | c + 1, l =>
+    let x := l.take d; let l := l.drop d
+    let p := l.take m; let l := l.drop m
+    let u := l.take m; let l := l.drop m
+    let (rest, l') := parseOff d m c l
+    ({ x := x, pen := p, unpen := u } :: rest, l')
+
+def parseParents (d m : Nat) : Nat → List Int → List Indiv × List Int
+  | 0, l => ([], l)
+  | c + 1, l =>
+    let x := l.take d; let l := l.drop d
+    let f := l.take m; let l := l.drop m
+    let (rest, l') := parseParents d m c l
+    ({ x := x, pen := f, unpen := f } :: rest, l')
+
+/-- run the `upd` history; returns the list of observed states -/
+def runUpd (algo : String) (ind : List Pt → Indicator) (mu m d : Nat) (parents : List Indiv) :
+    Nat → List Int → List String
+  | 0, _ => []
+  | steps + 1, l =>
+    match l with
+    | [] => ["short"]
+    | c :: l =>
+      let (off, l) := parseOff d m c.toNat l
+      let next :=
+        if algo == "smsemoa" then steadyUpdate ind parents (off.getD 0 default) mu
+        else if algo == "ssmocma" then ssmocmaUpdate ind parents (off.getD 0 default) mu
+        else genUpdate ind parents off mu
+      showPop next :: runUpd algo ind mu m d next steps l
+
+def runMoead (t : Nat) (weights nbh : List (List Nat)) (m d : Nat) (s : MoeadState) : Nat → List Int → List String
+  | 0, _ => []
+  | steps + 1, l =>
+    match l with
+    | [] => ["short"]
+    | c :: l =>
+      let (off, l) := parseOff d m c.toNat l
+      let s' := moeadUpdate t weights nbh s (off.getD 0 default)
+      showPop s'.parents :: runMoead t weights nbh m d s' steps l
+
+def runRvea (mu m d groups : Nat) (parents : List Indiv) : Nat → List Int → List Int → List String
+  | 0, _, _ => []
+  | steps + 1, l, aux =>
+    match l with
+    | [] => ["short"]
+    | c :: l =>
+      let (off, l) := parseOff d m c.toNat l
+      let n := parents.length + off.length
+      let grp := (aux.take n).map Int.toNat
+      let apd := ((aux.drop n).take n).map fun a => if a < 0 then none else some a
+      let next := rveaUpdate parents off groups grp apd mu
+      showPop next :: runRvea mu m d groups next steps l (aux.drop (2 * n))
+
 def step (line : String) : String :=
   let toks := (line.trimAscii.toString.splitOn " ").filter (· ≠ "")
   match toks with
   | [] => ""
   | "opt" :: rest =>
     -- optimizer runs are checked by the harness' oracle; the expected observation is constant
-    if rest.length == 8 then s!"opt ok steps={rest.getD 6 "?"}" else "bad-op"
-  | "sel" :: _ind :: rest =>
+    if rest.length == 8 || rest.length == 9 then s!"opt ok steps={rest.getD 6 "?"}" else "bad-op"
+  | "sel" :: ind :: rest =>
     match rest.mapM String.toInt? with
-    | some (mu :: m :: n :: nums) =>
+    | some (mu :: m :: n :: nums0) =>
+      let hvr := ind == "hvr"
+      let nums := if hvr then nums0.drop m.toNat else nums0
       let S := chunk m.toNat n.toNat nums
       let ranks := fastSort S
-      let (r, keep) := lastFront ranks mu.toNat
-      let flags := String.join (ranks.map fun rk => if rk < r then "1" else if rk == r then "?" else "0")
-      s!"ranks={showL ranks} flags={flags} keep={keep}"
+      match indicatorOf (if hvr then "hv" else ind) m.toNat (if hvr then nums0.take m.toNat else refAbove m.toNat S) with
+      | some mk =>
+        let flags := select (mk S) ranks mu.toNat
+        let (r, _) := lastFront ranks mu.toNat
+        let keep := ((List.range ranks.length).filter fun i => ranks.getD i 0 == r && flags.getD i false).length
+        s!"ranks={showL ranks} flags={String.join (flags.map fun b => if b then "1" else "0")} keep={keep}"
+      | none =>
+        let (r, keep) := lastFront ranks mu.toNat
+        let flags := String.join (ranks.map fun rk => if rk < r then "1" else if rk == r then "?" else "0")
+        s!"ranks={showL ranks} flags={flags} keep={keep}"
     | _ => "bad-op"
   | "elit" :: rest =>
     match rest.mapM String.toInt? with
@@ -36,6 +143,67 @@ def step (line : String) : String :=
       let sel := elitist (sortedOrder keys) mu.toNat
       s!"sel={showL (sel.map fun i => keys.getD i 0)}"
     | _ => "bad-op"
+  | "pen" :: rest =>
+    -- pen alpha d m n lo(d) hi(d) A(m*d) B(m) pts(n*d)
+    match rest.mapM String.toInt? with
+    | some (alpha :: d :: m :: n :: nums) =>
+      let d := d.toNat; let m := m.toNat; let n := n.toNat
+      let lo := nums.take d; let nums := nums.drop d
+      let hi := nums.take d; let nums := nums.drop d
+      let A := chunk d m nums; let nums := nums.drop (m * d)
+      let B := nums.take m; let nums := nums.drop m
+      let f : List Int → Pt := fun x =>
+        (List.range m).map fun k =>
+          ((A.getD k []).zipWith (· * ·) x).foldl (· + ·) 0 + B.getD k 0 * (x.map fun v => v * v).foldl (· + ·) 0
+      let pts := chunk d n nums
+      " ".intercalate (pts.map fun x =>
+        let r := penEval f lo hi alpha x
+        s!"u={showL r.unpen} p={showL r.pen} feas={if feasible lo hi x then 1 else 0}")
+    | _ => "bad-op"
+  | "tour" :: rest =>
+    -- tour seed k n c ranks(n) aux draws(k*c)
+    let main := rest.takeWhile (· ≠ "aux")
+    let aux := (rest.dropWhile (· ≠ "aux")).drop 1
+    match main.mapM String.toInt?, aux.mapM String.toNat? with
+    | some (_seed :: k :: n :: c :: ranks), some draws =>
+      if draws.length != k.toNat * c.toNat || ranks.length != n.toNat then "bad-op"
+      else
+        let rk := ranks.map Int.toNat
+        let ws := (List.range c.toNat).map fun j => tournament rk ((draws.drop (j * k.toNat)).take k.toNat)
+        s!"winners={showL ws}"
+    | _, _ => "bad-op"
+  | "upd" :: algo :: rest =>
+    -- upd algo refflag mu m d T steps [r(m)] parents(mu*(d+m)) {c off(c*(d+2m))}^steps [aux …]
+    let main := rest.takeWhile (· ≠ "aux")
+    let auxT := (rest.dropWhile (· ≠ "aux")).drop 1
+    match main.mapM String.toInt?, auxT.mapM String.toInt? with
+    | some (refflag :: mu :: m :: d :: T :: steps :: nums), some aux =>
+      let mu := mu.toNat; let m := m.toNat; let d := d.toNat; let steps := steps.toNat
+      let r := if refflag == 1 then nums.take m else []
+      let nums := if refflag == 1 then nums.drop m else nums
+      let (parents, nums) := parseParents d m mu nums
+      let hvInd : List Pt → Indicator := if refflag == 1 then mkIndicator (hvLeastRef r) else mkIndicator hvLeastNoRef2d
+      if algo == "moead" then
+        let t := latticeTicks m mu
+        let weights := lattice m t
+        let nbh := (List.range weights.length).map fun i => ((aux.drop (i * T.toNat)).take T.toNat).map Int.toNat
+        let s0 : MoeadState := { parents := parents, z := List.replicate m 1000000000, cur := 0 }
+        " / ".intercalate (showPop parents :: runMoead t weights nbh m d s0 steps nums)
+      else if algo == "rvea" then
+        " / ".intercalate (showPop parents :: runRvea mu m d mu parents steps nums aux)
+      else
+        let ind : List Pt → Indicator :=
+          if algo == "nsga2" then mkIndicator (crowdLeast floatNum)
+          else if algo == "nsga2eps" then mkIndicator epsLeast
+          else hvInd
+        let init :=
+          if algo == "mocma" then parents
+          else if algo == "ssmocma" then
+            let l := applySelect ind parents mu
+            sortRankOne l.length l
+          else applySelect ind parents mu
+        " / ".intercalate (showPop init :: runUpd algo ind mu m d init steps nums)
+    | _, _ => "bad-op"
   | _ => "bad-op"
 
 partial def loop (h : IO.FS.Stream) (out : IO.FS.Stream) : IO Unit := do
